@@ -1,7 +1,7 @@
 """C18 — capacity figures are truthful (DESIGN.md #C18)"""
 import subjects, common
 
-SPEC = dict(modules=["MemVerif.Props.C18"], gen_cfgs=("rwdi",),
+SPEC = dict(modules=["MemVerif.Props.C18", "MemVerif.Props.C18Counters"], gen_cfgs=("rwdi",),
             assumptions=["no-overflow side conditions are explicit hypotheses (C18_min_block_wraps shows they are needed)",
                          "counter deltas (capacity_left, pool_capacity_left, next_capacity) per operation are compared with the model on every trace line"])
 
